@@ -163,6 +163,7 @@ class Effects(object):
         self.evals = {}
         self.changed = False
         self.first_param_types = self._first_param_types()
+        self.helper_param_types = self._helper_param_types()
         self.calls_resolved = 0
         self.calls_external = 0
         self.calls_unknown = 0
@@ -182,7 +183,61 @@ class Effects(object):
                     out.setdefault(r[1].qualname, set()).add(cq.rsplit('.', 1)[-1])
         return out
 
+    def _helper_param_types(self):
+        """private module-level helpers: a parameter that receives, at every call site in the module, the `self` of a method of one class (or `<x>.values` / `<x>.axes`)
+        is of that type; a call site whose argument is anything else leaves the parameter untyped"""
+        seen = {}
+        byname = {}
+        for q, g in self.P.functions.items():
+            if g.cls is None and g.name.startswith('_') and not g.name.startswith('__'):
+                byname.setdefault((g.module, g.name), g)
+        if not byname:
+            return {}
+        for q, f in self.P.functions.items():
+            recv_t = None
+            if f.params:
+                recv_t = self.param_type(f, f.params[0]) if f.cls is not None else None
+                if f.cls is None:
+                    ts = self.first_param_types.get(f.qualname)
+                    recv_t = list(ts)[0] if ts and len(ts) == 1 else ('DimArray' if ts and 'DimArray' in ts else None)
+            for node in ast.walk(f.node):
+                if not (isinstance(node, ast.Call) and isinstance(node.func, ast.Name) and (f.module, node.func.id) in byname):
+                    continue
+                g = byname[(f.module, node.func.id)]
+                if any(isinstance(a, ast.Starred) for a in node.args) or any(k.arg is None for k in node.keywords):
+                    for p_ in g.params:
+                        seen.setdefault((g.qualname, p_), set()).add(None)
+                    continue
+                bound = list(zip(g.params, node.args)) + [(k.arg, k.value) for k in node.keywords]
+                for p_, a in bound:
+                    t_ = None
+                    if isinstance(a, ast.Name) and f.params and a.id == f.params[0] and not any(
+                            isinstance(n, (ast.Assign, ast.AugAssign, ast.For)) and any(isinstance(x, ast.Name) and x.id == a.id for tgt in
+                            (n.targets if isinstance(n, ast.Assign) else [n.target]) for x in ast.walk(tgt)) for n in ast.walk(f.node)):
+                        t_ = recv_t
+                    elif isinstance(a, ast.Attribute) and a.attr in ('values', '_values'):
+                        t_ = 'ndarray'
+                    elif isinstance(a, ast.Attribute) and a.attr in ('axes', '_axes'):
+                        t_ = 'Axes'
+                    elif isinstance(a, ast.Subscript) and isinstance(a.value, ast.Attribute) and a.value.attr in ('axes', '_axes') and not isinstance(a.slice, ast.Slice):
+                        t_ = 'Axis'
+                    elif isinstance(a, ast.Name):
+                        # a local assigned exactly once, from `<x>.axes[<one index>]`: an Axis
+                        defs = [n for n in ast.walk(f.node) if isinstance(n, (ast.Assign, ast.AugAssign, ast.For, ast.With, ast.NamedExpr, ast.comprehension)) and any(
+                            isinstance(x, ast.Name) and x.id == a.id for tgt in (n.targets if isinstance(n, ast.Assign) else [n.target] if hasattr(n, 'target') else
+                                                                                  [i.optional_vars for i in n.items if i.optional_vars is not None]) for x in ast.walk(tgt))]
+                        if len(defs) == 1 and isinstance(defs[0], ast.Assign) and len(defs[0].targets) == 1 and isinstance(defs[0].targets[0], ast.Name) \
+                                and a.id not in f.params:
+                            v_ = defs[0].value
+                            if isinstance(v_, ast.Subscript) and isinstance(v_.value, ast.Attribute) and v_.value.attr in ('axes', '_axes') and not isinstance(v_.slice, ast.Slice):
+                                t_ = 'Axis'
+                    seen.setdefault((g.qualname, p_), set()).add(t_)
+        return dict((k, list(v)[0]) for k, v in seen.items() if len(v) == 1 and None not in v)
+
     def param_type(self, fi, p):
+        if fi.cls is None and getattr(self, 'helper_param_types', None) and (fi.qualname, p) in self.helper_param_types \
+                and not (fi.params and p == fi.params[0] and self.first_param_types.get(fi.qualname)):
+            return self.helper_param_types[(fi.qualname, p)]
         if fi.params and p == fi.params[0]:
             if fi.cls is not None:
                 for c in fi.cls.mro:
